@@ -22,6 +22,7 @@ static BUFR_Tables *tables = NULL;
 static unsigned long sink_bytes = 0;
 static void sink_debug(const char *msg){ if(msg) sink_bytes += strlen(msg); }
 static char *g_header = NULL;
+static int g_lazy = 0;   /* LAZY 1: zero delayed replication counts are left at their default instead of being set and expanded */
 static jmp_buf exit_jmp; static int exit_armed = 0; static int exit_called = 0;
 void __real_exit(int);
 void __wrap_exit(int code){ if(exit_armed){ exit_called = 1; longjmp(exit_jmp, 1);} __real_exit(code); }
@@ -139,6 +140,8 @@ static int fill_subset(BUFR_Dataset *dts, int pos, char **toks, int ntok){
     if(j >= c) break;
     BufrDescriptor *b = bufr_datasubset_get_descriptor(ss,j);
     if(has_data(b)){
+      if(g_lazy && (b->flags & FLAG_CLASS31) && !(b->flags & FLAG_EXPANDED) && k < ntok && !strcmp(toks[k],"r0")
+         && (b->descriptor==31000 || b->descriptor==31001 || b->descriptor==31002)){ k++; j++; continue; }  /* count 0 is the default: an application need not set it */
       if(k >= ntok){ if(getenv("VERIF_DEBUG")) fprintf(stderr,"fill: out of tokens at j=%d desc=%06d\n",j,b->descriptor); return -2; }
       if(set_token(b, toks[k++])){ if(getenv("VERIF_DEBUG")) fprintf(stderr,"fill: set failed at j=%d desc=%06d tok=%s flags=%x\n",j,b->descriptor,toks[k-1],b->flags); return -2; }
       if((b->flags & FLAG_CLASS31) && !(b->flags & FLAG_EXPANDED)){
@@ -315,7 +318,8 @@ int main(void){
   while((line=h_getline())){
     char *save=NULL; char *tok=strtok_r(line," ",&save);
     if(!tok) { printf("\n"); continue; }
-    if(!strcmp(tok,"CFG")){ /* diagnostic switches: debug verbose meta trimzero; diagnostics go to a counting sink */
+    if(!strcmp(tok,"LAZY")){ g_lazy = atoi(strtok_r(NULL," ",&save)); printf("LAZY %d\n", g_lazy); }
+    else if(!strcmp(tok,"CFG")){ /* diagnostic switches: debug verbose meta trimzero; diagnostics go to a counting sink */
       int d=atoi(strtok_r(NULL," ",&save)), v=atoi(strtok_r(NULL," ",&save)), m=atoi(strtok_r(NULL," ",&save)), t=atoi(strtok_r(NULL," ",&save));
       bufr_set_debug_handler(sink_debug); bufr_set_output_handler(sink_debug);
       bufr_set_debug(d); bufr_set_verbose(v); bufr_enable_meta(m); bufr_set_trimzero(t);
